@@ -66,6 +66,25 @@ struct mutex_of : any_mutex
         }
     }
 };
+// inner lock for recursive_mutex_impl<Mutex> whose unlock() returns slowly now and then (legal: the
+// template is instantiated with a user-provided lock type)
+struct linger_spinlock
+{
+    pika::concurrency::detail::spinlock l;
+    unsigned n = 0;
+    void lock() { l.lock(); }
+    bool try_lock() { return l.try_lock(); }
+    void unlock()
+    {
+        bool slow = (++n % 3) == 0;
+        l.unlock();
+        if (slow)
+        {
+            auto t = clk::now() + std::chrono::microseconds(15);
+            while (clk::now() < t) {}
+        }
+    }
+};
 struct timed_of : any_mutex
 {
     pika::timed_mutex m;
@@ -328,7 +347,10 @@ int main(int argc, char** argv)
         {
         case 0: w.mtx = std::make_unique<mutex_of<pika::mutex>>(); break;
         case 1: w.mtx = std::make_unique<timed_of>(); break;
-        case 2: w.mtx = std::make_unique<mutex_of<pika::detail::recursive_mutex_impl<>>>(); break;
+        case 2:
+            if (R.chance(1, 2)) w.mtx = std::make_unique<mutex_of<pika::detail::recursive_mutex_impl<>>>();
+            else w.mtx = std::make_unique<mutex_of<pika::detail::recursive_mutex_impl<linger_spinlock>>>();
+            break;
         default: w.mtx = std::make_unique<mutex_of<pika::concurrency::detail::spinlock>>(); break;
         }
         w.use_any = R.chance(1, 2);
@@ -459,6 +481,27 @@ int main(int argc, char** argv)
                 {
                     scripts[a].push_back({o_lock, 0, false});
                     scripts[a].push_back({o_unlock, 0, false});
+                }
+            }
+        }
+        // re-entrant storm (recursive mutex): nested lock / try_lock inside the outer critical section, many
+        // hand-overs between the actors; the depth bookkeeping must follow the owner
+        if (!cvmode && w.mkind == 2 && R.chance(1, 2))
+        {
+            for (int a = 0; a < nact; ++a)
+            {
+                auto& s = scripts[a];
+                s.clear();
+                int n = 5 + (int) R.below(8);
+                for (int i = 0; i < n; ++i)
+                {
+                    s.push_back({o_lock, 0, false});
+                    if (R.chance(2, 3))
+                    {
+                        s.push_back({R.chance(1, 2) ? o_lock : o_try, 0, false});
+                        s.push_back({o_unlock, 0, false});
+                    }
+                    s.push_back({o_unlock, 0, false});
                 }
             }
         }
